@@ -60,10 +60,11 @@ class Verdict:
 
 
 class Expected:
-    __slots__ = ("net", "who", "kind", "can_id", "data", "remote", "period", "optional")
+    __slots__ = ("net", "who", "kind", "can_id", "data", "remote", "period", "optional", "alt")
 
-    def __init__(self, net, who, kind, can_id, data, remote, period, optional=False):
+    def __init__(self, net, who, kind, can_id, data, remote, period, optional=False, alt=()):
         self.net, self.who, self.kind = net, who, kind
+        self.alt = tuple(alt)      # other CAN ids that are acceptable too (see Model._sync_cob)
         self.can_id, self.data, self.remote, self.period = can_id, bytes(data), remote, period
         self.optional = optional
 
@@ -108,7 +109,8 @@ class Model:
     def __init__(self, cfg):
         self.mod = cfg["mod"]
         self.connected = {"M": True, "S": True}
-        self.sync = {n: {"period": None, "running": None, "optional": False} for n in ("M", "S")}
+        self.sync = {n: {"period": None, "running": None, "optional": False, "cob": 0x80, "run_cob": 0x80,
+                         "alt": (), "seen": {0x80}} for n in ("M", "S")}
         self.pdo = {}
         self.hb = {}
         self.guard = {}
@@ -133,7 +135,8 @@ class Model:
         out = []
         for net, s in self.sync.items():
             if s["running"] is not None:
-                out.append(Expected(net, "sync", "sync", 0x80, b"", False, s["running"], s["optional"]))
+                out.append(Expected(net, "sync", "sync", s["run_cob"], b"", False, s["running"], s["optional"],
+                                    s["alt"]))
         for key, p in self.pdo.items():
             if p.running is not None:
                 out.append(Expected(p.net, p.who, "pdo", p.cob, p.data if p.sent is None else p.sent, False,
@@ -150,7 +153,7 @@ class Model:
 
     def who(self, net, can_id, remote):
         """Name and kind of the producer owning (net, id, remote flag)."""
-        if can_id == 0x80 and not remote:
+        if not remote and net in self.sync and can_id in self.sync[net]["seen"]:
             return "sync", "sync"
         for p in self.pdo.values():
             if p.net == net and p.cob == can_id and not remote:
@@ -202,6 +205,18 @@ class Model:
             v.flags.add("R")
         s["period"] = p
         s["running"] = p
+        s["run_cob"], s["alt"] = s["cob"], ()
+
+    def _sync_cob(self, op, v):
+        """sync.cob_id = x.  A later start() must use it; whether a task that is running already follows at
+        once is not stated, so until the next start()/stop() the running task may carry the id it was started
+        with or the new one."""
+        s = self.sync[op["net"]]
+        s["cob"] = op["cob"]
+        s["seen"].add(op["cob"])
+        if s["running"] is not None:
+            s["alt"] = tuple(sorted(set(s["alt"]) | {op["cob"]}))
+            v.flags.add("C")
 
     def _sync_stop(self, op, v):
         s = self.sync[op["net"]]
